@@ -9,7 +9,7 @@ def spec(f):
 
 @spec
 def distinct_seq(q):
-    return forall(i, 0 <= i < len(q), forall(j, i < j < len(q), q[i] != q[j]))
+    return forall2(i, j, 0 <= i and i < j and j < len(q), q[i] != q[j])
 
 
 @spec
@@ -81,3 +81,31 @@ def mct_of(cfg):
 @spec
 def aging_of(cfg):
     return cfg.get("aging_ms", 200)
+
+
+# ---------------------------------------------------------------- C03: meta-filter (t4)
+
+@spec
+def ckey_of(d):
+    return ckey3(d.target_kind, d.target_id, d.attr)
+
+
+@spec
+def clip(x, c):
+    return ite(x > c, c, ite(x < -c, -c, x))
+
+
+@spec
+def same_meta(a, b):
+    return (a.target_kind == b.target_kind and a.target_id == b.target_id and a.attr == b.attr
+            and a.op_idx == b.op_idx and a.idx == b.idx)
+
+
+@spec
+def absr(x):
+    return ite(x >= 0, x, -x)
+
+
+@spec
+def opt_min(a, b):
+    return ite(is_none(a), b, ite(is_none(b), a, ite(some(a) <= some(b), a, b)))
